@@ -48,6 +48,7 @@ fn run_one(def: &props::PropDef, ctx: &mut Ctx, si: usize, exhaustive: bool, cas
         match p.kind {
             PanicKind::Harness => ctx.inconclusive(format!("harness panic at {}:{}: {}", p.file, p.line, p.msg)),
             PanicKind::Budget => ctx.inconclusive(format!("unattributed step-budget cut: {}", p.msg)),
+            PanicKind::IoBudget => ctx.violation("io-calls:unbounded", format!("the stream parser kept calling the reader without end: {}", p.msg)),
             PanicKind::Crate => {
                 let sig = p.sig();
                 ctx.violation(&sig, format!("panic escaped a monitored call: {} at {}:{}", p.msg, p.file, p.line));
